@@ -58,7 +58,7 @@ Qed.
 
 Lemma gstate_app_here c e r : gstate (fst (app_here c e r)) = gstate c.
 Proof.
-  unfold app_here. destruct (negb _ || existsb (N.eqb (e_msg e)) (k_seen (kc c))); [reflexivity|].
+  unfold app_here. destruct (negb _ || existsb (N.eqb (e_msg e)) (k_seen (kc c)) || (e_bad e =? 7)); [reflexivity|].
   cbn [fst]. rewrite gstate_upd_last. reflexivity.
 Qed.
 
@@ -216,7 +216,7 @@ Proof.
     + destruct (d_msg d) as [m|]; [|exact H]. destruct (dget m (msgs c)); exact H.
     + destruct (d_state d =? PS_COMMIT); exact H.
   - destruct (e_kind e =? 1).
-    + unfold app_here. destruct (negb _ || existsb (N.eqb (e_msg e)) (k_seen (kc c))); exact H.
+    + unfold app_here. destruct (negb _ || existsb (N.eqb (e_msg e)) (k_seen (kc c)) || (e_bad e =? 7)); exact H.
     + destruct (e_kind e =? 2).
       * unfold leave_here. destruct (existsb (N.eqb (100000 + e_id e)) (k_seen (kc c))); [exact H|].
         destruct (is_admin c && _); exact H.
@@ -426,7 +426,7 @@ Proof.
     + destruct (d_state d =? PS_COMMIT); apply sim_same; reflexivity.
   - destruct (e_kind e =? 1).
     + unfold app_here. change (kc (restart c)) with (kc c).
-      destruct (negb _ || existsb (N.eqb (e_msg e)) (k_seen (kc c))); apply sim_same; reflexivity.
+      destruct (negb _ || existsb (N.eqb (e_msg e)) (k_seen (kc c)) || (e_bad e =? 7)); apply sim_same; reflexivity.
     + destruct (e_kind e =? 2).
       * unfold leave_here. change (kc (restart c)) with (kc c). change (is_admin (restart c)) with (is_admin c).
         destruct (existsb (N.eqb (100000 + e_id e)) (k_seen (kc c))); [apply sim_same; reflexivity|].
@@ -613,7 +613,7 @@ Proof.
     + destruct (d_msg d) as [m|]; [|exact H]. destruct (dget m (msgs c)); exact H.
     + destruct (d_state d =? PS_COMMIT); exact H.
   - destruct (e_kind e =? 1).
-    + apply Held_Grown. unfold app_here. destruct (negb _ || existsb (N.eqb (e_msg e)) (k_seen (kc c))); [exact H|].
+    + apply Held_Grown. unfold app_here. destruct (negb _ || existsb (N.eqb (e_msg e)) (k_seen (kc c)) || (e_bad e =? 7)); [exact H|].
       cbn [fst]. apply Held_core; [|exact H]. rewrite upd_last_states. exact (proj1 H).
     + destruct (e_kind e =? 2).
       * apply Held_Grown. unfold leave_here. destruct (existsb (N.eqb (100000 + e_id e)) (k_seen (kc c))); [exact H|].
